@@ -1,7 +1,7 @@
 (* Correspondence checker for C11: the container's link fields, counts and ends (read through the
    serde snapshot) must equal what scanning the slots yields (Model/Nav.v). *)
 From Coq Require Import List QArith ZArith NArith Bool Arith.
-From QmcV Require Import Model.Prog Model.Sse Model.Nav Check.Common.
+From QmcV Require Import Model.Prog Model.Sse Model.Nav Model.FastOps Check.Common.
 Import ListNotations.
 Local Open Scope nat_scope.
 
@@ -14,7 +14,10 @@ Record links := mkLinks {
 
 Inductive case :=
 | Snap (nvars : nat) (sl : slots) (lk : list (option links)) (n : nat) (p_ends : option (nat * nat))
-       (var_ends : list (option ((nat * nat) * (nat * nat)))) (counters : option (list nat)).
+       (var_ends : list (option ((nat * nat) * (nat * nat)))) (counters : option (list nat))
+(* consecutive mutate_p calls from position a with the callback's decisions: the branch-by-branch
+   model of the linked structure (Model/FastOps.v) must produce exactly the implementation's structure *)
+| Mut (nvars : nat) (nb : option nat) (before : slots) (a : nat) (decs : list (option (option op))) (after : fops).
 
 Definition on_eqb (a b : option nat) : bool :=
   match a, b with Some x, Some y => Nat.eqb x y | None, None => true | _, _ => false end.
@@ -60,6 +63,9 @@ Definition check (c : case) : verdict :=
            | None => true
            | Some cs => forallb (fun '(b, c) => Nat.eqb c (count_bond b sl)) (combine (seq 0 (length cs)) cs)
            end)
+  | Mut nvars nb before a decs after =>
+      let '(F, _) := FastOps.sweep (build nvars nb before) (scan_cursor nvars before a) a decs in
+      of_bool (fops_eqb F after)
   end.
 
 Definition run (base : N) (cs : list case) : list N * N := collect check base cs.
